@@ -31,7 +31,7 @@ def set_blocksize(n):
 
 
 def compress(data, typesize=8, clevel=1, shuffle=SHUFFLE, cname='zstd', **kw):
-    raw = bytes(memoryview(data).cast('B')) if not isinstance(data, bytes) else data
+    raw = data if isinstance(data, bytes) else memoryview(data).tobytes()
     body = zlib.compress(raw, 1)
     calls['compress'] += 1
     return _HDR.pack(_MAGIC, len(raw), _HDR.size + len(body), int(typesize)) + body
